@@ -310,7 +310,11 @@ pub const FIELD_RUST_NONRAW: [&str; 4] = ["self", "Self", "super", "crate"];
 pub const TYPE_ORDINARY: [&str; 12] = ["Foo", "Bar", "NetDev", "T", "T1", "State", "Info", "MyType", "Item", "Config", "A", "Z9"];
 pub const TYPE_KW_LIKE: [&str; 14] = ["Type", "Method", "Interface", "Bool", "Int", "Float", "Object", "Fn", "Match", "Struct", "Async", "Dyn", "Try", "Enum"];
 pub const METHOD_ORDINARY: [&str; 12] = ["Ping", "GetInfo", "Start", "Stop", "TestMore", "List", "Get", "Set", "Monitor", "Run", "Q", "DoIt2"];
-pub const ERROR_ORDINARY: [&str; 8] = ["NotFound", "Failed", "Busy", "InvalidState", "E", "ErrorFoo", "PermissionDenied", "Timeout2"];
+/// includes `InterfaceNotFound`: an interface may declare its own error with the local name of a
+/// standard one (`org.example.InterfaceNotFound` is not `org.varlink.service.InterfaceNotFound`). The
+/// other three standard names fall into the generator's known class K8 (`reply_method_not_found` ...
+/// clash with `CallTrait`) and stay out of the pool like `Struct`.
+pub const ERROR_ORDINARY: [&str; 9] = ["NotFound", "Failed", "Busy", "InvalidState", "E", "ErrorFoo", "PermissionDenied", "Timeout2", "InterfaceNotFound"];
 pub const IFACE_ELEMS: [&str; 12] = ["org", "example", "a", "b2", "x-y", "A", "Test", "co9", "b--1", "net", "io", "Z"];
 pub const IFACE_ELEMS_LATER: [&str; 4] = ["0ex", "21", "1", "0"];
 
@@ -327,11 +331,13 @@ pub struct GenOpts {
     pub max_fields: usize,
     /// error parameters use no anonymous struct / enum types (named, basic and container types only)
     pub plain_error_params: bool,
+    /// one definition in 24 has 32..61 members (sorting / grouping code paths that only differ for long lists)
+    pub big: bool,
 }
 
 impl Default for GenOpts {
     fn default() -> Self {
-        GenOpts { resolvable: false, max_depth: 3, idl_keywords: true, rust_keywords: true, max_types: 4, max_methods: 4, max_errors: 3, max_fields: 4, plain_error_params: false }
+        GenOpts { resolvable: false, max_depth: 3, idl_keywords: true, rust_keywords: true, max_types: 4, max_methods: 4, max_errors: 3, max_fields: 4, plain_error_params: false, big: false }
     }
 }
 
@@ -450,9 +456,19 @@ pub fn gen_iface_name(t: &mut Tape) -> String {
 
 pub fn gen_idl(t: &mut Tape, o: &GenOpts) -> Idl {
     let name = gen_iface_name(t);
-    let nt = t.pick(o.max_types + 1);
-    let nm = 1 + t.pick(o.max_methods);
-    let ne = t.pick(o.max_errors + 1);
+    let mut nt = t.pick(o.max_types + 1);
+    let mut nm = 1 + t.pick(o.max_methods);
+    let mut ne = t.pick(o.max_errors + 1);
+    let small;
+    let o = if o.big && t.chance(1, 24) {
+        nt = 10 + t.pick(11);
+        nm = 12 + t.pick(13);
+        ne = 10 + t.pick(11);
+        small = GenOpts { max_fields: 1, max_depth: 1, ..o.clone() };
+        &small
+    } else {
+        o
+    };
     let mut used = BTreeSet::new();
     let tname = |t: &mut Tape| -> String {
         if t.chance(1, 4) && o.rust_keywords {
@@ -500,6 +516,31 @@ pub fn gen_idl(t: &mut Tape, o: &GenOpts) -> Idl {
             }
         }
         members.push(Member { name: n, docs: vec![], def: Def::Error(p) });
+    }
+    if members.len() >= 32 {
+        // long definitions: kinds interleaved round-robin even when the tape is used up
+        let mut by_kind: [Vec<Member>; 3] = [vec![], vec![], vec![]];
+        for m in members.drain(..) {
+            let k = match m.def {
+                Def::Type(_) => 0,
+                Def::Method(..) => 1,
+                Def::Error(_) => 2,
+            };
+            by_kind[k].push(m);
+        }
+        let mut its: Vec<_> = by_kind.into_iter().map(|v| v.into_iter()).collect();
+        loop {
+            let mut any = false;
+            for it in its.iter_mut() {
+                if let Some(m) = it.next() {
+                    members.push(m);
+                    any = true;
+                }
+            }
+            if !any {
+                break;
+            }
+        }
     }
     // order of appearance: a tape-driven shuffle (identity when the tape is exhausted)
     for i in (1..members.len()).rev() {
